@@ -25,6 +25,7 @@ METHODS = ["fourier", "fir", "iir", "boxcar"]
 MCOQ = {"fourier": "MFourier", "iir": "MIir", "boxcar": "MBoxcar", "filtfilt": "MFiltfilt"}
 K_ODD = "C18/filtered_fourier/odd-n-grid"
 K_DELTA = "C18/output-axis/interval-beyond-float-rate"
+K_IIR = "C18/iir/ba-form-order>=16"
 
 
 def fh(x):
@@ -270,7 +271,7 @@ def cases_of(sc):
 
     for method in sc["methods"]:
         out, err, rec = run_method(T, cfg, method)
-        res[method] = (out, err)
+        res[method] = (out, err, rec)
         aout = None if out is None else axis_of(out)
         ys = None if out is None else rows(out.data)
         if method == "fourier":
@@ -449,9 +450,14 @@ def oracle(sc, res=None):
     n = sc["n"]
     allpass = lb == 0 and (ub is None or ub == Fs / 2)
     if res is None:
-        res = {m: run_method(T, cfg, m)[:2] for m in sc["methods"]}
+        res = {m: run_method(T, cfg, m) for m in sc["methods"]}
     for method in sc["methods"]:
-        out, err = res[method]
+        out, err, rec = res[method]
+        # iir realised in transfer-function form: order of the denominator iirdesign returned
+        iir_order = 0
+        if method == "iir" and rec["iirdesign"] and rec["iirdesign"][0]["res"] is not None:
+            iir_order = len(rec["iirdesign"][0]["res"][1]) - 1
+        numkey = K_IIR if iir_order >= 16 else None
         site = {"fourier": "filtered_fourier", "fir": "fir", "iir": "iir", "boxcar": "filtered_boxcar"}[method]
         if out is None:
             expected_err = (method == "iir" and (allpass or err == "ValueError")) or \
@@ -476,7 +482,7 @@ def oracle(sc, res=None):
         sc_ = scale_of(T.data)
         for c, (x, y) in enumerate(zip(xs, ys)):
             if abs(np.mean(y) - np.mean(x)) > 1e-9 * sc_:
-                fails.append(Fail("C18/%s/mean" % site, "%s: mean of channel %d changed" % (site, c),
+                fails.append(Fail(numkey or "C18/%s/mean" % site, "%s: mean of channel %d changed" % (site, c),
                                   float(np.mean(y)), float(np.mean(x))))
                 break
         # linearity: f(a x + b z) = a f(x) + b f(z), z a deterministic second data set
@@ -488,7 +494,7 @@ def oracle(sc, res=None):
             d = np.max(np.abs(o3.data - (a_ * out.data + b_ * o2.data)))
             # elliptic / Chebyshev recursions in (b, a) form amplify rounding: looser for iir
             if d > (1e-3 if method == "iir" else 1e-7) * sc_:
-                fails.append(Fail("C18/%s/linearity" % site, "%s is not linear in the data" % site, float(d), 0.0))
+                fails.append(Fail(numkey or "C18/%s/linearity" % site, "%s is not linear in the data" % site, float(d), 0.0))
         if method == "fourier":
             for c, (x, y) in enumerate(zip(xs, ys)):
                 r = true_band_fail(x, y, Fs, lb, ub)
@@ -649,8 +655,8 @@ def run(ctx):
     ctx.check_props()
     g = ctx.check_gen("G_grid", gen_grid_table(), ["get_freqs_is_model_grid"])
     rng = ctx.rng
-    nmax = ctx.scale(64, 160)
-    scen = corpus() + special_scenarios(rng) + [gen_scenario(rng, nmax, i) for i in range(ctx.scale(70, 600))]
+    nmax = ctx.scale(64, 128)
+    scen = corpus() + special_scenarios(rng) + [gen_scenario(rng, nmax, i) for i in range(ctx.scale(70, 320))]
     cases, results = [], []
     skipped = {"fourier-float-boundary": 0}
     for s in scen:
@@ -658,7 +664,7 @@ def run(ctx):
         cases += cs
         results.append((s, res, cs))
     direct = []
-    for i in range(ctx.scale(120, 1500)):
+    for i in range(ctx.scale(120, 800)):
         sc = boxfilter_case(rng, ctx.scale(40, 120))
         cs, r = boxfilter_cases(sc)
         cases += cs
